@@ -69,6 +69,7 @@ class DScn:
     via: str = "graph"               # instances observed through sm._graph() or DotGraphMachine(sm)()
     rtc: bool = True
     subclass: bool = False           # observe through an empty subclass `class Sub(M): pass`
+    states_dict: bool = False        # states declared through `States({id: State(...), ...})`: ids are arbitrary strings
 
 
 def to_json(s: DScn) -> str:
@@ -211,9 +212,20 @@ def allowed_id(x: str) -> bool:
     return x not in EXCLUDED_IDS and x.lower() not in EXCLUDED_IDS_CI
 
 
+# ids that are not identifiers (only possible through a `States({...})` mapping), in pairs that differ only in the
+# character an "identifier-safe" rewriting would touch
+WEIRD_IDS = ["in-progress", "in_progress", "to do", "to_do", "a.b", "a_b", "x+y", "x_y", "9lives", "_9lives",
+             "done!", "done_", "ünï-code", "ünï_code", "50%", "50_"]
+
+
 def gen_scenario(rng: random.Random, name: str, ids=None) -> DScn:
     s = DScn(name=name)
     n = rng.choice([1, 2, 2, 3, 3, 3, 4, 4, 5, 6])
+    if not ids and rng.random() < 0.15:
+        s.states_dict = True
+        k = rng.randrange(0, len(WEIRD_IDS) - 1, 2)
+        pool = WEIRD_IDS[k:k + 2] + rng.sample([x for x in WEIRD_IDS + ["s0", "s1", "idle"] if x not in WEIRD_IDS[k:k + 2]], 4)
+        ids = pool[:max(2, n)]
     ids = list(ids) if ids else rng.sample([x for x in ID_POOL if allowed_id(x)], n)
     n = len(ids)
     plain_vals = rng.random() < 0.5
@@ -234,7 +246,7 @@ def gen_scenario(rng: random.Random, name: str, ids=None) -> DScn:
     if rng.random() < 0.15:
         # an event named like a state (`open.to(closed, event="closed")`): legal — the class attribute of that
         # name is then the event, not the state — and irrelevant for the picture
-        evs.append(rng.choice(ids))
+        evs.append(rng.choice([i for i in ids if " " not in i] or ["go2"]))     # (a blank separates event names)
     attr_evs = [e for e in evs if e not in ids]
     nonfinal = [k for k in range(n) if not s.states[k].final]
 
